@@ -251,53 +251,78 @@ func checkC19(c *Ctx) {
 							lib = append(lib, "/**", " * @param? u", " * @param? n", " */", fmt.Sprintf("{template .d%d}", d), "x{$u ?: ''}{$n ?: ''}", body, "{/template}")
 						}
 						libText := strings.Join(lib, eol) + eol
-						var rerr error
-						var cerr error
-						v := vrt.Run(vrt.Options{Fuel: 5000000}, func() {
-							tofu, err := soy.NewBundle().AddTemplateString("lib/library.soy", libText).AddTemplateString("app/entry.soy", entry).CompileToTofu()
-							if err != nil {
-								cerr = err
-								return
+						// inputs may share a file name (AddTemplateString takes any name, also none): the
+						// position is still a position in the text that defines the entry template.
+						for naming := 0; naming < 4; naming++ {
+							if naming > 0 && !(pad%3 == 0 && (wrap == "plain" || wrap == "if")) {
+								continue
 							}
-							var buf bytes.Buffer
-							rerr = tofu.Render(&buf, "r.entry.main", nil)
-						})
-						cs := c19case{Kind: "render", File: "app/entry.soy", Files: map[string]string{"app/entry.soy": entry, "lib/library.soy": libText}, Fault: bad + fmt.Sprintf(" at call depth %d in %s", depth, wrap), Line: ok[len(ok)-1], EOL: fmt.Sprintf("%q", eol)}
-						key := fmt.Sprintf("r|%q|%d|%d|%s|%d", eol, depth, pad, wrap, bi)
-						sig := fmt.Sprintf("depth %d:%s:%q", depth, wrap, eol)
-						switch {
-						case v.Panic != nil || v.Exhausted:
-							c.Observe(key, "panic")
-							c.Violate("render returns", "panic", "panic:render "+sig, cs, "error", fmt.Sprint(v.Panic))
-							continue
-						case cerr != nil:
-							c.Observe(key, "compile error")
-							c.Violate("fixture compiles", "mismatch", "fixture:render", cs, "compiles", cerr.Error())
-							continue
-						case rerr == nil:
-							c.Observe(key, "no error")
-							c.Violate("the failing print fails the render", "mismatch", "no-error:"+sig, cs, "render error", "nil")
-							continue
-						}
-						c.Nontrivial()
-						fp := errortypes.ToErrFilePos(rerr)
-						if fp == nil {
-							c.Observe(key, "no position")
-							c.Violate("every render error carries a file position", "mismatch", "no-filepos:render "+sig, cs, "ErrFilePos", firstLineOf(rerr.Error()))
-							continue
-						}
-						c.Observe(key, fmt.Sprintf("%s:%d", fp.File(), fp.Line()))
-						okLine := false
-						for _, l := range ok {
-							if fp.Line() == l {
-								okLine = true
+							entryName, libName, entryFirst := "app/entry.soy", "lib/library.soy", false
+							switch naming {
+							case 1:
+								entryName, libName = "shared.soy", "shared.soy"
+							case 2:
+								entryName, libName, entryFirst = "shared.soy", "shared.soy", true
+							case 3:
+								entryName, libName, entryFirst = "", "", true
 							}
-						}
-						switch {
-						case fp.File() != "app/entry.soy":
-							c.Violate("a render error carries the file that defines the entry template", "mismatch", "render-file:"+sig, cs, "app/entry.soy", fmt.Sprintf("%s:%d (%s)", fp.File(), fp.Line(), firstLineOf(rerr.Error())))
-						case !okLine:
-							c.Violate("a render error carries the line, in the entry file, of the outermost command whose execution failed", "mismatch", "render-line:"+sig, cs, fmt.Sprint(ok), fmt.Sprintf("%d (%s)", fp.Line(), firstLineOf(rerr.Error())))
+							var rerr error
+							var cerr error
+							v := vrt.Run(vrt.Options{Fuel: 5000000}, func() {
+								b := soy.NewBundle()
+								if entryFirst {
+									b = b.AddTemplateString(entryName, entry).AddTemplateString(libName, libText)
+								} else {
+									b = b.AddTemplateString(libName, libText).AddTemplateString(entryName, entry)
+								}
+								tofu, err := b.CompileToTofu()
+								if err != nil {
+									cerr = err
+									return
+								}
+								var buf bytes.Buffer
+								rerr = tofu.Render(&buf, "r.entry.main", nil)
+							})
+							cs := c19case{Kind: "render", File: entryName, Files: map[string]string{"entry: " + entryName: entry, "library: " + libName: libText}, Fault: bad + fmt.Sprintf(" at call depth %d in %s", depth, wrap), Line: ok[len(ok)-1], EOL: fmt.Sprintf("%q", eol)}
+							key := fmt.Sprintf("r|%q|%d|%d|%s|%d|%d", eol, depth, pad, wrap, bi, naming)
+							sig := fmt.Sprintf("depth %d:%s:%q", depth, wrap, eol)
+							if naming > 0 {
+								sig += fmt.Sprintf(":inputs named %q and %q", entryName, libName)
+							}
+							switch {
+							case v.Panic != nil || v.Exhausted:
+								c.Observe(key, "panic")
+								c.Violate("render returns", "panic", "panic:render "+sig, cs, "error", fmt.Sprint(v.Panic))
+								continue
+							case cerr != nil:
+								c.Observe(key, "compile error")
+								c.Violate("fixture compiles", "mismatch", "fixture:render", cs, "compiles", cerr.Error())
+								continue
+							case rerr == nil:
+								c.Observe(key, "no error")
+								c.Violate("the failing print fails the render", "mismatch", "no-error:"+sig, cs, "render error", "nil")
+								continue
+							}
+							c.Nontrivial()
+							fp := errortypes.ToErrFilePos(rerr)
+							if fp == nil {
+								c.Observe(key, "no position")
+								c.Violate("every render error carries a file position", "mismatch", "no-filepos:render "+sig, cs, "ErrFilePos", firstLineOf(rerr.Error()))
+								continue
+							}
+							c.Observe(key, fmt.Sprintf("%s:%d", fp.File(), fp.Line()))
+							okLine := false
+							for _, l := range ok {
+								if fp.Line() == l {
+									okLine = true
+								}
+							}
+							switch {
+							case fp.File() != entryName:
+								c.Violate("a render error carries the file that defines the entry template", "mismatch", "render-file:"+sig, cs, entryName, fmt.Sprintf("%s:%d (%s)", fp.File(), fp.Line(), firstLineOf(rerr.Error())))
+							case !okLine:
+								c.Violate("a render error carries the line, in the entry file, of the outermost command whose execution failed", "mismatch", "render-line:"+sig, cs, fmt.Sprint(ok), fmt.Sprintf("%d (%s)", fp.Line(), firstLineOf(rerr.Error())))
+							}
 						}
 					}
 				}
